@@ -510,4 +510,83 @@ theorem walkN_link (lax : Bool) (g : Mem) (n : Nat) (p : Packet) (t : Tag) (c : 
         · intro h; rw [h] at hlt; cases t <;> simp [rank] at hlt <;> first | exact h1 rfl | exact h2 rfl | omega
         · intro h; rw [h] at hlt; cases t <;> simp [rank] at hlt <;> first | exact h1 rfl | exact h2 rfl | omega
 
+/-! ### E. starting at an Ethernet II header = starting at its ether type behind it -/
+
+/-- what the Ethernet II start makes of the result of the ether-type start on the bytes behind the
+    header: every offset moved by 14, the link is the Ethernet II frame -/
+def ethOfEtherType (n : Nat) (r : Packet × Option Fault) : Packet × Option Fault :=
+  (setLk (some (.eth2 ⟨0, n⟩)) (shPacket 14 r.1), r.2.map (shFault 14))
+
+theorem walk_eth_eq_ether_shift (lax : Bool) (g : Mem) (n : Nat) (h : 14 ≤ n) :
+    walkN lax g maxSteps Packet.empty .eth { off := 0, stop := n, lim := .slice, nExt := 0 } =
+      ethOfEtherType n
+        (walkN lax (shM 14 g) maxSteps (startPacket (n - 14) (.etherType (g16 g 12))) (.ether (g16 g 12))
+          { off := 0, stop := n - 14, lim := .slice, nExt := 0 }) := by
+  have hav : ({ off := 0, stop := n, lim := .slice, nExt := 0 } : Ctx).avail = n := by simp [Ctx.avail]
+  have h14 : ¬ n < 14 := by omega
+  rw [show maxSteps = 11 + 1 from rfl]
+  have hstep : step lax g Packet.empty .eth { off := 0, stop := n, lim := .slice, nExt := 0 } =
+      ⟨setLink Packet.empty (.eth2 ⟨0, n⟩), .ether (g16 g 12), { off := 0 + 14, stop := n, lim := .slice, nExt := 0 }, none⟩ := by
+    simp only [step, hav, h14, if_false]
+  have hw : ∀ p c, walkN lax g (11 + 1) p .eth c =
+      match (step lax g p .eth c).fault with
+      | some f => ((step lax g p .eth c).p, some f)
+      | none => walkN lax g 11 (step lax g p .eth c).p (step lax g p .eth c).next (step lax g p .eth c).c := by
+    intro p c; rfl
+  rw [hw, hstep]
+  simp only
+  have hc : ({ off := 0 + 14, stop := n, lim := .slice, nExt := 0 } : Ctx) =
+      shCtx 14 { off := 0, stop := n - 14, lim := .slice, nExt := 0 } := by
+    simp [shCtx]; omega
+  have hp : setLink Packet.empty (.eth2 ⟨0, n⟩) =
+      setLk (some (.eth2 ⟨0, n⟩)) (shPacket 14 (startPacket (n - 14) (.etherType (g16 g 12)))) := by
+    simp [setLink, setLk, shPacket, startPacket, Packet.empty]
+  rw [hc, hp, walkN_link _ _ _ _ _ _ _ (by simp) (by simp) (by simp [shCtx]), walkN_shift]
+  rw [walkN_fuel lax (shM 14 g) 11 (11 + 1) _ _ _ (by simp) (by simp [rank]) (by simp [rank])]
+  rfl
+/-- **lax wire-format decoding, Ethernet II start = ether-type start on the bytes behind the header** -/
+theorem decodeLax_eth_eq_ether_type (g : Mem) (n : Nat) (h : 14 ≤ n) :
+    decodeLax .eth g n = ethOfEtherType n (decodeLax (.etherType (g16 g 12)) (shM 14 g) (n - 14)) :=
+  walk_eth_eq_ether_shift true g n h
+
+/-- **strict wire-format decoding, Ethernet II start = ether-type start on the bytes behind the header**:
+    the same verdict; the packet with every offset moved by 14 and the Ethernet II frame as link; the
+    fault with its offset moved by 14 -/
+theorem decode_eth_eq_ether_type (g : Mem) (n : Nat) (h : 14 ≤ n) :
+    decode .eth g n =
+      match decode (.etherType (g16 g 12)) (shM 14 g) (n - 14) with
+      | .ok p => .ok (setLk (some (.eth2 ⟨0, n⟩)) (shPacket 14 p))
+      | .error f => .error (shFault 14 f) := by
+  unfold decode
+  rw [show startTag false .eth = .eth from rfl, show startPacket n .eth = Packet.empty from rfl,
+    walk_eth_eq_ether_shift false g n h]
+  rw [show startTag false (.etherType (g16 g 12)) = .ether (g16 g 12) from rfl]
+  generalize walkN false (shM 14 g) maxSteps (startPacket (n - 14) (.etherType (g16 g 12))) (.ether (g16 g 12))
+    { off := 0, stop := n - 14, lim := .slice, nExt := 0 } = r
+  obtain ⟨p, fo⟩ := r
+  cases fo <;> rfl
+
+/-- fewer than 14 bytes: the Ethernet II start faults at the Ethernet II header (strict and lax) -/
+theorem walk_eth_short (lax : Bool) (g : Mem) (n : Nat) (h : n < 14) :
+    walkN lax g maxSteps Packet.empty .eth { off := 0, stop := n, lim := .slice, nExt := 0 } =
+      (Packet.empty, some (mkFault { off := 0, stop := n, lim := .slice, nExt := 0 } .cutShort .eth 14)) := by
+  have hav : ({ off := 0, stop := n, lim := .slice, nExt := 0 } : Ctx).avail = n := by simp [Ctx.avail]
+  have hstep : step lax g Packet.empty .eth { off := 0, stop := n, lim := .slice, nExt := 0 } =
+      ⟨Packet.empty, .done, { off := 0, stop := n, lim := .slice, nExt := 0 },
+        some (mkFault { off := 0, stop := n, lim := .slice, nExt := 0 } .cutShort .eth 14)⟩ := by
+    simp only [step, hav, h, if_true]
+  have hw : ∀ p c, walkN lax g maxSteps p .eth c =
+      match (step lax g p .eth c).fault with
+      | some f => ((step lax g p .eth c).p, some f)
+      | none => walkN lax g 11 (step lax g p .eth c).p (step lax g p .eth c).next (step lax g p .eth c).c := by
+    intro p c; rfl
+  rw [hw, hstep]
+
+theorem decode_eth_short (g : Mem) (n : Nat) (h : n < 14) :
+    decode .eth g n = .error (mkFault { off := 0, stop := n, lim := .slice, nExt := 0 } .cutShort .eth 14) := by
+  unfold decode
+  rw [show startTag false .eth = .eth from rfl, show startPacket n .eth = Packet.empty from rfl,
+    walk_eth_short false g n h]
+  rfl
+
 end EpModel.Spec
